@@ -25,19 +25,21 @@ EXTENDS Naturals, Sequences, FiniteSets, TLC, Json
 Kinds == {"assign", "annassign", "walrus", "tuple", "starred", "for", "with", "except", "comp",
           "param", "kwonly", "vararg", "kwarg", "posonly", "def", "class",
           "import", "fromimport", "dotted", "aliased", "star", "future", "globaldecl",
-          "dupimport", "aliasclash"}       \* two bindings of one identifier in one statement: import x, x.sub / from os import x as y, y
-Scopes == {"module", "class", "function", "method", "nested", "lambda"}
+          "dupimport", "aliasclash",       \* two bindings of one identifier in one statement: import x, x.sub / from os import x as y, y
+          "fromalias", "fromalias_us",     \* from os import path as NAME / from os import _exit as NAME (the shape rule looks at NAME)
+          "fortuple", "withtuple", "comptuple", "nestedtuple"}   \* the identifier inside a tuple target
+Scopes == {"module", "class", "function", "method", "nested", "lambda", "inmethod", "lambdainmethod"}   \* inmethod: a def nested in a method
 Shapes == {"x", "_x", "__x__"}
 ParamKinds == {"param", "kwonly", "vararg", "kwarg", "posonly"}
-ImportKinds == {"import", "fromimport", "dotted", "aliased", "dupimport", "aliasclash"}
-FunctionLike == {"function", "method", "nested", "lambda"}
+ImportKinds == {"import", "fromimport", "dotted", "aliased", "dupimport", "aliasclash", "fromalias", "fromalias_us"}
+FunctionLike == {"function", "method", "nested", "lambda", "inmethod", "lambdainmethod"}
 
 Legal(k, s, sh) ==
-  /\ (k \in ParamKinds => s \in {"function", "method", "nested", "lambda"})      \* parameters belong to the function itself
-  /\ (s = "lambda" => k \in ParamKinds \cup {"walrus", "comp"})                  \* a lambda body is one expression
+  /\ (k \in ParamKinds => s \in {"function", "method", "nested", "lambda", "inmethod", "lambdainmethod"})      \* parameters belong to the function itself
+  /\ (s \in {"lambda", "lambdainmethod"} => k \in ParamKinds \cup {"walrus", "comp"})                  \* a lambda body is one expression
   /\ (k = "future" => s = "module" /\ sh = "x")                                   \* from __future__ import only at module level
   /\ (k = "star" => s = "module" /\ sh = "x")
-  /\ (k = "globaldecl" => s \in {"function", "method", "nested"})
+  /\ (k = "globaldecl" => s \in {"function", "method", "nested", "inmethod"})
   /\ (k \in {"dotted", "dupimport", "aliasclash"} => sh = "x")
   /\ (k = "posonly" => s # "lambda" \/ TRUE)
 
